@@ -7,6 +7,9 @@ B2 = "lean4+b2"
 TB = ("Trusted: Lean 4.33 kernel; axioms propext/Classical.choice/Quot.sound (printed per theorem by the axiom audit on every run); "
       "the translator harness/extract.py; the correspondence harness and the monitors (Python). ")
 C = {
+ "C01": ("proof", B2, "Lean 4 theorems over the L4 small-step model of caller/sender/reader threads (Props/C01.lean): wire ++ in-flight ++ queue is an order-preserving sub-sequence of the submissions in every reachable state (at most once, in order, text unchanged), equality while the connection is up, quiescence, every other write is the probe. Tie: the real connection with real threads under the deterministic scheduler (1..4 callers, bursts, idle gaps, random latencies, line-level preemption); every observable trace is checked against the model by the compiled acceptor (subset simulation) and by an independent wire-vs-submission monitor.",
+         "Modelled rather than verified: ynca/connection.py, pyserial ReaderThread/LineReader (hand model, validated by trace inclusion). Liveness (idle reaches quiescence) is observed by the monitor, not proved. Domain: command texts without CR LF, raw texts other than the in-band sentinels.",
+         "Lean 4 proof (invariant over all label sequences) + trace inclusion of scheduled real executions"),
  "C02": ("proof", B1, "Lean 4 theorems (Props/C02.lean): chunk independence of the framing for every stream and partition, framing round trip for every list of lines, UTF-8 never produces CR LF, parse theorem for every S, F and any V, status literals. Tie: real YncaProtocol.data_received / handle_line vs the compiled model on random partitions (cuts inside CR LF and multi-byte characters) and an adversarial alphabet; independent bytes.split/str.partition oracle searches the real code.",
          "Modelled rather than verified: pyserial Packetizer/LineReader, YncaProtocol.handle_line, the one regex (hand model). bytes.decode('replace') on invalid UTF-8 is opaque.",
          "Lean 4 proof (structural/strong induction) + differential correspondence"),
@@ -19,12 +22,27 @@ C = {
  "C05": ("proof", B1, "Lean 4 theorems (Props/C05.lean): one canonical PUT per valid value kind, gates, rejections, state frame (cache/calls untouched, at most one PUT), step texts for every numeric step; table obligations by kernel evaluation. Tie: every writable attribute and action method of every class on real objects vs the compiled model; independent oracle.",
          "Modelled rather than verified: descriptor __set__/__get__, converters' to_str, action methods (classified by behavioural probes in the translator). Inputs the property leaves open are informational.",
          "Lean 4 proof (table-driven case analysis) + differential correspondence"),
+ "C08": ("proof", B2, "Lean 4 theorem C08_spacing: in every reachable state of the L4 timed model the write times are pairwise >= P.spacing apart (any callers, bursts, probes, faults, close), C08_spacing_100ms under the explicit hypothesis 100 ms <= spacing; only the sender writes. Tie: scheduled real executions in virtual time, acceptor + monitor on successive write time stamps.",
+         "Modelled rather than verified: the sender loop. Real sleep accuracy (time.sleep sleeps at least its argument) is trusted; COMMAND_SPACING is read from the source by the translator and passed to the acceptor.",
+         "Lean 4 proof (timed invariant) + trace inclusion of scheduled real executions"),
  "C09": ("proof", B2, "Lean 4 theorems (Props/C09.lean): exactly once after the cache update, filter, order, unregistered/closed, and C09_mutation_safe for arbitrary re-entrant callback scripts under snapshot delivery (L3 model). Tie: (a) real subunit objects with scripted re-entrant update callbacks vs the compiled model; (b) the real connection and reader thread under the deterministic scheduler with re-entrant message callbacks and a concurrently (un)registering thread, judged by a must/may monitor.",
          "Modelled rather than verified: subunit/connection delivery loops. Delivery order among callbacks is unspecified; user callbacks do not raise. DetSched shims (threading/queue/time) and the virtual port are trusted harness code.",
          "Lean 4 proof (induction over the delivery snapshot) + differential correspondence + scheduled real threads with monitor"),
+ "C13": ("proof", B2, "Lean 4 theorems over the L4 model at attribute granularity (flag read r1 and clear r2 are separate steps interleaving freely with the sender's s1): the flag is set exactly when a probe was flagged since it was last cleared; a line is withheld iff it is a SYS:MODELNAME line and that holds (only-if, delivered-otherwise, converse). Tie: scheduled real executions with line-level preemption inside handle_line/_send_handler, user MODELNAME queries racing probes, latencies on both sides of the spacing; acceptor + must/may monitor.",
+         "Modelled rather than verified: handle_line / _send_handler flag accesses. The monitor brackets the unobservable flag accesses with shim-level observations (queue get, clock).",
+         "Lean 4 proof (exact flag invariant) + trace inclusion of scheduled real executions"),
+ "C15": ("proof", B2, "Lean 4 theorems over the L4 model: the disconnect callback is invoked at most once in every execution and exactly once when the reader finishes connection_lost with no close() begun; not connected from the first step of connection_lost; no delivery afterwards; loss is final; the drain empties the queue before the exit marker. Tie: scheduled real executions with link drops / EOF / write errors at random points; acceptor + monitor.",
+         "Modelled rather than verified: connection_lost, ReaderThread.run. 'Sender terminates before the callback' is observed (monitor), not proved (needs urgency + no concurrent close). OS-level thread termination outside.",
+         "Lean 4 proof (invariants over all label sequences) + trace inclusion of scheduled real executions"),
+ "C16": ("proof", B2, "Lean 4 theorems over the L4 model with close() as a program on any thread (caller, or the reader inside a message/disconnect callback): never raises, accepted in every state, clears the disconnect callback for good, after it has returned the port is closed and the reader told to stop, nothing is written on a closed port, a reader-thread close forgets all message callbacks. Tie: scheduled real executions with close() at random points from callers, callbacks and the disconnect callback, repeated and concurrent; acceptor + monitor.",
+         "Modelled rather than verified: YncaConnection.close, ReaderThread.close/stop. Termination of close() within the join bound and of the library threads is observed by the monitor in virtual time, not proved. User callbacks return promptly (environment assumption).",
+         "Lean 4 proof (invariants over all label sequences) + trace inclusion of scheduled real executions"),
  "C10": ("proof", B1, "Lean 4 theorems (Props/C10.lean): an undecodable value leaves cache, callbacks, sent and liveness unchanged; after any history every cached value has the type of its function; decode is type-correct for every converter. Totality of framing/parsing/handling is by construction of the (total) models. Tie: typed attack on every readable function of every class and byte-level attack (invalid UTF-8, 1 MB lines, malformed YNCA) through the real data_received -> connection callbacks -> subunits, sentinel line after every attack.",
          "Modelled rather than verified: as C02/C03. Reader-thread survival is exercised through the real receive path; the thread itself is covered by the L4 checks. bytes.decode('replace') total (CPython).",
          "Lean 4 proof (invariant by induction on history, mutual induction on converters) + differential correspondence"),
+ "C20": ("proof", B2, "Lean 4 theorems: a ring of capacity n holds the last min(n,k) items after any k adds (bounded; empty for n = 0); in every reachable state of the L4 model the Send entries of the log are exactly the written lines plus at most one pending entry, the Received entries exactly the complete received lines, and every write was logged before. Tie: scheduled real executions with log snapshots by a concurrent caller for N in {0,1,2,5,100}; the acceptor compares every snapshot with the model's ring; independent monitor against the port's own record incl. reply-after-command.",
+         "Modelled rather than verified: RingBuffer (deque(maxlen)), log appends in handle_line/_send_handler. Causal order reply-after-command is checked by the monitor only. Time-stamp prefixes are ignored.",
+         "Lean 4 proof (list lemma + invariants) + trace inclusion of scheduled real executions"),
  "C11": ("proof", B1, "Lean 4 theorems (Props/C11.lean: C11_main for every rational and every grid of the statement's table; wiring of the regenerated function tables by complete kernel evaluation; MAXVOL exception) about an exact-arithmetic model of number_to_string_with_stepsize and the converters. Tie: real attribute assignments vs the compiled model on all grid/tie points with float neighbours; independent exact-Fraction oracle searches the real code.",
          "Modelled rather than verified: ynca/helpers.py, converters, descriptor __set__. CPython float()/Fraction trusted.",
          "Lean 4 proof over exact-arithmetic model + differential correspondence"),
